@@ -124,18 +124,54 @@ def match_known(prop, info):
 # ---------------------------------------------------------------- replay
 
 def replay(prop, info, sh):
-    """re-run the recorded case on the implementation and the model"""
-    c = info.get('case')
-    if not c:
-        print('replay: this record names a broken obligation / correspondence, not an input:')
-        print(json.dumps(info.get('broken'), indent=1))
+    """re-run the recorded case(s) on the implementation and on the model"""
+    cases = []
+    if info.get('case'):
+        cases = [info['case']]
+    elif info.get('group'):
+        cases = info['group']
+    if not cases or not all(isinstance(c, dict) and c.get('raw') for c in cases):
+        print('replay: this record names a broken obligation / correspondence or an implementation-only run, not a single input:')
+        print(json.dumps({k: info[k] for k in info if k in ('broken', 'why', 'schedule', 'detail')}, indent=1)[:3000])
+        print('re-run: VERIF_SEED=%s ./bin/check %s --tier %s' % (info.get('seed'), prop, info.get('tier')))
         return 1
-    from urllib.parse import quote
     work = os.path.join(ROOT, 'work', 'replay')
     os.makedirs(work, exist_ok=True)
-    print('replay: re-run `bin/check %s` with VERIF_SEED=%s VERIF_TIER=%s; recorded case:' % (prop, info.get('seed'), info.get('tier')))
-    print(json.dumps(c, indent=1))
-    return 1
+    path = os.path.join(work, 'case.txt')
+    with open(path, 'w') as f:
+        seen = set()
+        for c in cases:
+            for did, d in (c.get('docs') or {}).items():
+                if did not in seen:
+                    seen.add(did)
+                    f.write('\t'.join(d) + '\n')
+        for c in cases:
+            f.write('\t'.join(c['raw']) + '\n')
+    sh('./bin/build_go.sh')
+    g = sh('./build/xh run %s' % path).stdout
+    m = sh('./ocaml/model %s' % path).stdout
+    print('implementation:\n' + g + 'model:\n' + m)
+    mode = info.get('observable', 'exact')
+    import importlib.machinery, importlib.util
+    loader = importlib.machinery.SourceFileLoader('chk', os.path.join(ROOT, 'bin', 'check'))
+    spec = importlib.util.spec_from_loader('chk', loader)
+    chk = importlib.util.module_from_spec(spec)
+    loader.exec_module(chk)
+    gl = dict(l.split('\t', 1) for l in g.splitlines() if '\t' in l)
+    ml = dict(l.split('\t', 1) for l in m.splitlines() if '\t' in l)
+    bad = False
+    for c in cases:
+        cid = c['id']
+        if cid in gl and cid in ml and chk.project(mode, gl[cid]) != chk.project(mode, ml[cid]) and not ml[cid].startswith('?') and not ml[cid].startswith('U:'):
+            bad = True
+    if info.get('group'):
+        vals = set(chk.project('set', gl.get(c['id'], '')) for c in cases)
+        bad = bad or len(vals) > 1
+    for w in CRASHY:
+        if any(x.startswith(w) for v in gl.values() for x in v.split(';')):
+            bad = True
+    print('replay: the violation %s' % ('REPRODUCES' if bad else 'does not reproduce on the current tree'))
+    return 1 if bad else 0
 
 
 # ---------------------------------------------------------------- coqchk (thorough tier)
